@@ -4,6 +4,7 @@ are rewritten only on request) and referencetestcase.py (C19).
 """
 import ast
 import z3
+from collections import OrderedDict
 
 from pyvc.contracts import contract, Contract, REGISTRY
 from pyvc.sym import (T, TD, SObj, SBool, SInt, SStr, SList, SMap, Sym, Unsupported,
@@ -492,3 +493,73 @@ def _loader_view(it):
 contract(RTC + 'TaggedTestLoader.getTestCaseNames', props=['C19'], params=dict(testCaseClass=None),
          self_view=_loader_view, on_entry=_gtcn_entry, spec_env=dict(ENV, tagged_names=tagged_names),
          ensures=[('all-tests-of-a-tagged-class-otherwise-exactly-the-tagged-methods', 'result == tagged_names()')])
+
+
+# ---------------------------------------------------------------------------
+# referencepytest.tagged (C19, the pytest route): with --tagged exactly the
+# tagged tests stay collected (a test is tagged through itself or through its
+# class); with --istagged nothing stays and every class / function that has a
+# tagged test is printed once; with neither option the collection is untouched.
+# Collected items are stubs (0..4 of them, every tagging pattern).
+# ---------------------------------------------------------------------------
+RPY = 'tdda/referencetest/referencepytest.py::'
+
+
+def _tg_entry(it, senv):
+    n = it.path.choose([True] * 5)
+    mode = it.path.choose([True, True, True])          # neither / --tagged / --istagged
+    items, spec = [], []
+    classes = {}
+    for i in range(n):
+        shape = it.path.choose([True] * 4)             # plain function, tagged function, method of class A, method of class B
+        if shape in (0, 1):
+            fobj = SObj('function', {'__module__': 'mod', '__open__': False}, label='f%d' % i)
+            if shape == 1:
+                fobj.attrs['_tagged'] = True
+            tagged, owner = shape == 1, ('mod.f%d' % i)
+        else:
+            cname = 'A' if shape == 2 else 'B'
+            if cname not in classes:
+                cls = SObj('type', {'__name__': cname, '__open__': False}, label=cname)
+                if cname == 'B':
+                    cls.attrs['_tagged'] = True             # class B carries the tag, class A does not
+                classes[cname] = cls
+            inst = SObj('instance', {'__class__': classes[cname], '__open__': False})
+            fobj = SObj('method', {'__self__': inst, '__module__': 'mod', '__open__': False}, label='%s.m%d' % (cname, i))
+            mtag = cname == 'A' and it.path.choose([True, True]) == 1
+            if mtag:
+                fobj.attrs['_tagged'] = True
+            tagged, owner = (cname == 'B' or mtag), 'mod.' + cname
+        item = SObj('Item', {'obj': fobj, 'name': 'f%d' % i, '__open__': False}, label='item%d' % i)
+        items.append(item)
+        spec.append((item, tagged, owner))
+    opts = {'--tagged': mode == 1, '--istagged': mode == 2}
+    config = SObj('Config', {'__open__': False})
+    config.methods['getoption'] = Builtin(lambda it2, self, name, default=None: opts.get(name, default), 'getoption')
+    printed = []
+    it.spec_env['print'] = Builtin(lambda it2, *a, **k: printed.append(a[0]) if a else None, 'print')
+    senv['config'], senv['items'] = config, items
+    it.path.inputs['items'] = list(items)
+    it.ghost['tg'] = (list(items), spec, mode, printed)
+
+
+@specfn
+def collection_is_as_the_options_say(it, items):
+    original, spec, mode, printed = it.ghost['tg']
+    if mode == 0:
+        return list(items) == original and not printed
+    if mode == 1:
+        return list(items) == [i for i, t, o in spec if t]
+    if list(items):
+        return False
+    owners = []
+    for i, t, o in spec:
+        if t and o not in owners:
+            owners.append(o)
+    return [p for p in printed if p is not None] == owners
+
+
+contract(RPY + 'tagged', props=['C19'], params=OrderedDict([('config', None), ('items', None)]), on_entry=_tg_entry,
+         spec_env=dict(ENV, collection_is_as_the_options_say=collection_is_as_the_options_say),
+         ensures=[('tagged-run-keeps-exactly-the-tagged-tests-listing-keeps-none-and-names-each-owner-once',
+                   'collection_is_as_the_options_say(items)')], max_paths=100000)
